@@ -2,6 +2,8 @@ import VaxisModel.Model.Vxfw
 import VaxisModel.Spec.Routing
 import VaxisModel.Lemmas.Vxfw
 import VaxisModel.Lemmas.VxfwHover
+import VaxisModel.Lemmas.VxfwOnce
+import VaxisModel.Lemmas.VxfwFocus
 
 /-!
 # C15 — vxfw routes events capture-target-bubble and keeps focus and hover consistent
@@ -163,6 +165,15 @@ def focus_change_once_full : Prop :=
 theorem focus_change_once : focus_change_once_full :=
   fun o fuel s c => (focusGood_handleCommand o fuel).pairs s c
 
+/-- **focus_change_once** over whole histories of the Run loop (Init, any events, any frames, any
+handler behaviour): all FocusOut / FocusIn notifications pair up — FocusOut to the widget focused
+at that moment, then FocusIn to the new one, nothing in between — starting from the root widget,
+and the focused widget is the receiver of the last FocusIn. -/
+theorem focus_change_once_history (o : Oracle) (fuel : Nat) (root : Id) (t0 : STree) (steps : List Step) :
+    focusRun root false (runSteps o fuel (runInit o fuel root t0) steps).trace =
+      some (runSteps o fuel (runInit o fuel root t0) steps).focused :=
+  focusPairs_run o fuel root t0 steps
+
 /-- **focus_change_once** (single change). A focus command to a different widget whose two
 notifications are not answered with further focus commands: exactly one FocusOut to the old
 widget, `focused := w`, exactly one FocusIn to the new one, then the effects of the FocusOut
@@ -285,6 +296,38 @@ theorem commands_once (o : Oracle) (fuel : Nat) (s : St) (c : Cmd) :
   refine atomSeg_foldl o _ (fun s c => ?_) _ s
   obtain ⟨⟨t, ht, _⟩, _⟩ := ext_handleCommand (ev := .init) ⟨by simp, by simp⟩ o fuel s c
   exact ⟨t, ht⟩
+
+/-- **commands_once** over whole histories of the Run loop. Every command returned by any handler
+call — capture, target or bubble phase of a key / custom / mouse event, `Init`, a FocusIn /
+FocusOut notification (also of the best-effort refocus after a frame), a MouseEnter / MouseLeave
+notification of an event or of a frame, however deeply batched — takes effect exactly once: the
+command effects recorded in the trace are a permutation of the effects the handler calls of the
+trace asked for (the `k`-th call overall answered `h w ev phase k`). Only a permutation: the
+command of a FocusOut handler is processed after the FocusIn call. Hypothesis: the nesting budget
+(`fuel`, Go's stack) did not run out. Focus commands themselves: `commands_once` + `focus_change_once`. -/
+theorem commands_once_history (o : Oracle) (fuel : Nat) (root : Id) (t0 : STree) (steps : List Step)
+    (hs : (runSteps o fuel (runInit o fuel root t0) steps).stuck = false) :
+    (effectsIn (runSteps o fuel (runInit o fuel root t0) steps).trace).Perm
+      (owed o.h 0 (runSteps o fuel (runInit o fuel root t0) steps).trace) := by
+  obtain ⟨t, ht, _, hb⟩ := (bal_runInit o fuel root t0).trans0 (bal_runSteps o fuel steps _)
+  obtain ⟨_, hc⟩ := hb hs
+  have ht' : (runSteps o fuel (runInit o fuel root t0) steps).trace = t := by simpa [St.init] using ht
+  rw [ht']
+  apply List.perm_iff_count.mpr
+  intro e
+  have := hc e
+  simpa [St.init] using this
+
+/-- Non-vacuity: Init, a key whose capture handler answers a batch with a focus command, FocusOut
+answering a batch, a mouse event, a terminal FocusIn: ten effects, each once, in another order. -/
+example :
+    let o : Oracle := ⟨fun _ ev ph _ => if ev = .focusOut then .batch [.redraw, .other 3] else
+      if ev = .key 1 ∧ ph = .capture then .batch [.focus 1, .slice [.refresh, .consume]] else .other 9, fun _ => true⟩
+    let s := runSteps o 5 (runInit o 5 0 (.node 0 9 9 [])) [.ev (.key 1), .ev (.mouse 1 1), .ev .focusIn]
+    s.stuck = false ∧
+    effectsIn s.trace = [.other 9, .other 9, .redraw, .other 3, .other 9, .refresh, .consume, .other 9, .other 9, .other 9] ∧
+    owed o.h 0 s.trace = [.other 9, .other 9, .refresh, .consume, .redraw, .other 3, .other 9, .other 9, .other 9, .other 9] := by
+  decide
 
 example : Cmd.flatten (.batch [.redraw, .slice [.consume, .batch [.other 3]], .focus 2]) =
     [.redraw, .consume, .other 3, .focus 2] := by decide
